@@ -15,6 +15,7 @@ R11.8  count-leading/trailing-zero builtins are undefined for a zero argument: t
        parameter width, must be the value that the dominating non-zero test examined (a 64-bit test does not protect a 32-bit builtin)
 R11.9  every declared local of an emitted function carries its own `= 0` initialiser (no read of an indeterminate object)
 R11.10 declaration and use writers spell every identifier alike (shared twin-emitter rule; a mismatch does not compile)
+R11.11 every operand-stack variable the branch emitters mention is declared (shared with C03 R03.5; otherwise: undeclared identifier)
 R11.5  no typed dereference of linear memory in the little-endian configuration (only byte copies / atomics)
 R11.6  compile witness: one translation unit containing every template compiles without errors with gcc and clang
        as -std=gnu89 (thorough: gnu99, gnu11, gnu17) with implicit declarations and incompatible pointers as errors
@@ -551,6 +552,20 @@ def run(chk):
     # output does not compile (twin-emitter rule shared with C04 R04.2 / C09 R09.5)
     from . import c09
     c09.check_twins(chk, tus, rule='R11.10')
+    # R11.11: every operand-stack variable the control-flow emitters mention is declared (recorded in stackDeclarations, or the slot
+    # of an operand / label result that existed before) - otherwise the function does not compile; rule shared with C03 R03.5,
+    # evaluated here on the branch family (branch kind x nesting depth x extra operands x result type) and the branch scripts
+    c03.LETTERS.update(tabs['letter'])
+    c03.DECL_RULE[0], c03.DECL_COUNT[0] = 'R11.11', 0
+    try:
+        it3 = emit.make_interp(tus)
+        c03.check_branch_family(chk, it3, tabs, chk.tier)
+        c03.check_labels(chk, it3, tabs)
+        n_decl = c03.DECL_COUNT[0]
+    finally:
+        c03.DECL_RULE[0] = 'R03.5'
+    chk.require(n_decl >= 100, 'declared-slot rule evaluated on %d scripts only' % n_decl)
+    chk.ok('R11.11', 'slots-declared', '%d control-flow scripts use declared operand-stack variables only' % n_decl)
     compile_witness(chk, h.source(), chk.tier)
     if undecided and not chk.unlisted_violations():
         raise AnalysisBroken('templates whose freedom from undefined behaviour is not recognised by the type-based rules and not refuted on '
